@@ -668,10 +668,17 @@ VIEW_CALLS = {'moveaxis', 'transpose', 'swapaxes'}
 def _provenance(expr, fn, before_line, depth=0):
     """where does the array `expr` (evaluated before line `before_line` of function `fn`) come from?
     fresh | out | guarded:<helper> | flag:<flag> | param:<name> | unknown:<src>"""
-    if depth > 6:
+    if depth > 14:
         return 'unknown:depth'
     if isinstance(expr, ast.Subscript):
         return _provenance(expr.value, fn, before_line, depth + 1)
+    if isinstance(expr, ast.IfExp):            # `a if c else b`: both alternatives must be harmless
+        pa = _provenance(expr.body, fn, before_line, depth + 1)
+        pb = _provenance(expr.orelse, fn, before_line, depth + 1)
+        if pa == pb:
+            return pa
+        bad = [x for x in (pa, pb) if not (x in ('fresh', 'out') or x.startswith('guarded:') or x.startswith('flag:'))]
+        return bad[0] if bad else pa
     if isinstance(expr, ast.Attribute) and expr.attr == 'T':
         return _provenance(expr.value, fn, before_line, depth + 1)
     if isinstance(expr, ast.Call):
@@ -695,6 +702,13 @@ def _provenance(expr, fn, before_line, depth=0):
                 for t in n.targets:
                     if isinstance(t, ast.Name) and t.id == expr.id:
                         assigns.append(n)
+                    elif isinstance(t, ast.Tuple) and isinstance(n.value, ast.Tuple) and len(t.elts) == len(n.value.elts):
+                        # `a, b = x, y`: element-wise
+                        for te, ve in zip(t.elts, n.value.elts):
+                            if isinstance(te, ast.Name) and te.id == expr.id:
+                                fake = ast.Assign(targets=[te], value=ve)
+                                fake.lineno = n.lineno
+                                assigns.append(fake)
         if not assigns:
             return ('param:' + expr.id) if expr.id in params else 'unknown:' + expr.id
         # an assignment under `if not <flag>:` leaves the parameter untouched when the flag is set: that is the documented
